@@ -44,9 +44,14 @@ Diverge(what) == /\ (IF lost THEN TRUE ELSE Expect(FALSE, what)) /\ lost' = TRUE
 Answered == denied \/ (pend.code # 0 /\ pend.local) \/ direct # 0
 
 RecvWhy(i) == IF ph \notin RecvKinds
-                THEN (IF Answered \/ term THEN "receive-filter-ran-after-the-request-was-answered" ELSE "receive-filter-ran-out-of-phase")
+                THEN (IF Answered \/ term THEN "receive-filter-ran-after-the-request-was-answered"
+                      ELSE IF Len(log) > 0 /\ log[Len(log)].v \in {"rm", "rc"}
+                        THEN "pass-re-entered-for-a-re-entry-verdict-of-the-wrong-phase"
+                      ELSE "receive-filter-ran-out-of-phase")
               ELSE IF resumeAt # 0 /\ i # resumeAt THEN "reentry-did-not-resume-at-requesting-filter"
               ELSE IF \E j \in DOMAIN log : log[j].pass = pass /\ log[j].slot = i THEN "receive-filter-twice-in-one-pass"
+              ELSE IF NextIn(chain, ph, cur) # 0 /\ i \in DOMAIN chain /\ (chain[i] # ph \/ i > NextIn(chain, ph, cur))
+                THEN "receive-filter-skipped"       \* a filter that is due in this pass did not run, a later one did
               ELSE IF i \in DOMAIN chain /\ chain[i] # ph THEN "receive-filter-ran-in-wrong-phase"
               ELSE "receive-filter-order"
 
